@@ -34,6 +34,10 @@ func (fr *Frame) execCall(b *ssa.BasicBlock, st *State, ins ssa.CallInstruction)
 	var args []Val
 	for _, a := range cc.Args {
 		args = append(args, fr.val(a))
+		fc.escapeVal(fr.val(a))
+	}
+	if cc.IsInvoke() {
+		fc.escapeVal(fr.val(cc.Value))
 	}
 	if cc.IsInvoke() {
 		fr.execInvoke(b, st, ins, cc, args, resT)
@@ -313,6 +317,12 @@ func (fr *Frame) contractCall(b *ssa.BasicBlock, st *State, callee *ssa.Function
 			fc.addFact(guard, sOr(sEq(res.Agg[0].S, "0"), sApp(">", res.Agg[0].S, fc.get(old, hAlloc))))
 		}
 	}
+	for _, pr := range c.Premises {
+		env := &SpecEnv{fr: fr, vars: renv, now: st, old: old, pkg: callee.Pkg.Pkg}
+		t, qs := fr.evalFact(pr.E, env)
+		fc.addFactQ(guard, t, qs)
+		fc.assumptions[fmt.Sprintf("premise on %s (assumed by callers, not proved): %s", shortFn(callee), pr.Src)] = true
+	}
 	for _, en := range c.Ensures {
 		env := &SpecEnv{fr: fr, vars: renv, now: st, old: old, pkg: callee.Pkg.Pkg}
 		t, qs := fr.evalFact(en.E, env)
@@ -586,6 +596,7 @@ func (fr *Frame) execInvoke(b *ssa.BasicBlock, st *State, ins ssa.CallInstructio
 		g := fc.freshConst("Rinv", "Bool")
 		fc.addFact("true", sEq(g, sAnd(saved, cond)))
 		fr.reach[b.Index] = g
+		fr.callAsserts(b, bst, calleeName(m), cargs, pos)
 		if c := fc.eng.fnContract[m]; c != nil {
 			res = fr.contractCall(b, bst, m, c, cargs, resT, pos, "true")
 		} else if fc.eng.inlinable(m) && fr.depth < 4 {
@@ -957,7 +968,7 @@ func (fr *Frame) execAppend(b *ssa.BasicBlock, st *State, args []Val, resT types
 	}
 	capR := fc.freshConst("cap", "Int")
 	fr.assume(b, sAnd(sEq(sApp("sl_arr", r), arrR), sEq(sApp("sl_off", r), offR), sEq(sApp("sl_len", r), newLen),
-		sEq(sApp("sl_cap", r), sIte(inplace, capS, capR)), sApp(">=", capR, newLen), sApp("<=", capR, "4611686018427387904"),
+		sEq(sApp("sl_cap", r), sIte(inplace, capS, capR)), sApp(">=", capR, newLen), sApp("<=", capR, "281474976710656"),
 		sImp(sNot(sEq(s, "0")), sNot(sEq(r, "0"))), sImp(sApp(">", newLen, "0"), sNot(sEq(r, "0")))))
 	return Val{S: r, Typ: resT}
 }
@@ -1033,8 +1044,22 @@ func (fr *Frame) callAsserts(b *ssa.BasicBlock, st *State, name string, args []V
 		for i, a := range args {
 			vars[fmt.Sprintf("$%d", i)] = a
 		}
-		env := &SpecEnv{fr: fr, vars: vars, now: st, old: fr.pre, pkg: fr.fn.Pkg.Pkg}
+		env := &SpecEnv{fr: fr, vars: vars, now: st, old: fr.pre, pkg: fr.fn.Pkg.Pkg, header: fr.innermostHeader(b)}
 		t, sks := fr.evalGoal(ca.Cl.E, env)
 		fr.fc.obligeSplit("assert", "at:"+ca.Callee+"."+ca.Cl.Label, fr.reach[b.Index], t, pos, fr.propsFor(ca.Cl.Props), true, sks)
 	}
+}
+
+// innermostHeader: header of the innermost loop containing block b (nil if none)
+func (fr *Frame) innermostHeader(b *ssa.BasicBlock) *ssa.BasicBlock {
+	var best *loopInfo
+	for _, li := range fr.loops {
+		if li.blocks[b.Index] && (best == nil || len(li.blocks) < len(best.blocks)) {
+			best = li
+		}
+	}
+	if best == nil {
+		return nil
+	}
+	return best.header
 }
